@@ -167,8 +167,25 @@ fn related_long<T: Clone>(rng: &mut Rng, alpha: &[T], pick: &mut dyn FnMut(&mut 
         1 => n - 1 - rng.below(3) as usize,
         _ => 8 + rng.below(n as u64 - 8) as usize,
     };
-    match rng.below(8) {
+    match rng.below(11) {
         0 => {}
+        // one change at an ARBITRARY position (the very first element, an early one, anywhere), lengths
+        // equal: a comparison that skips or mis-weights some index shows only here
+        8 => bv[0] = pick(rng, alpha),
+        9 => {
+            let k = rng.below(n as u64) as usize;
+            bv[k] = pick(rng, alpha);
+        }
+        10 => {
+            // two changes whose positions agree modulo 8 / 16 (word-wise fast paths)
+            let k = rng.below(n as u64) as usize;
+            let step = [8usize, 16][rng.below(2) as usize];
+            let x = pick(rng, alpha);
+            bv[k] = x.clone();
+            if k + step < n {
+                bv[k + step] = x;
+            }
+        }
         1 | 2 | 3 => {
             let k = late(rng);
             bv[k] = pick(rng, alpha);
